@@ -284,6 +284,39 @@ def rule_rewrap(ctx, cfg, F):
     R.count("rewrap_fns[%s]" % cfg, n)
 
 
+def _forward_counter(g, operand):
+    """the operand is (a copy of) an integer local whose definitions are `= 0` and `= itself + 1`, nothing else: a hand-written forward loop counter"""
+    C = _copy_root(g, operand)
+    if C is None or g.local_ty(C) not in ("usize", "u32", "u64", "isize", "i32", "i64"):
+        return False
+    ds = [d for d in g.defs().get(C, []) if not g.is_cleanup(d[0])]
+    if len(ds) < 2:
+        return False
+    zero = inc = 0
+    for b, si, node in ds:
+        if si is None or node["lhs"].get("p"):
+            return False
+        rv = node["rv"]
+        if rv["r"] == "use" and op_const(rv["a"][0]) == 0:
+            zero += 1
+            continue
+        if rv["r"] == "use" and op_place(rv["a"][0]) is not None:
+            # `C = move T.0`, T = AddWithOverflow(C, 1)
+            pl = rv["a"][0]["pl"]
+            pr = pl.get("p") or []
+            if len(pr) == 1 and isinstance(pr[0], dict) and pr[0].get("f") == 0:
+                td = [d for d in g.defs().get(pl["l"], []) if not g.is_cleanup(d[0])]
+                if len(td) == 1 and td[0][1] is not None:
+                    rv = td[0][2]["rv"]
+        if rv["r"] == "bin" and rv.get("op") in ("Add", "AddWithOverflow", "AddUnchecked") and len(rv["a"]) == 2:
+            x, y = rv["a"]
+            if (op_const(y) == 1 and _copy_root(g, x) == C) or (op_const(x) == 1 and _copy_root(g, y) == C):
+                inc += 1
+                continue
+        return False
+    return zero == 1 and inc >= 1
+
+
 def rule_split_order(ctx, cfg, F):
     R = ctx.rule("SPLIT-ORDER", "the receiver splits the received descriptors in increasing index order, appending to both lists (no insert(0), no reverse iteration); "
                  "the sender's two collection loops iterate forward and only push")
@@ -305,6 +338,8 @@ def rule_split_order(ctx, cfg, F):
             rev = "rev" in repr(e)
             if idx and not rev and all(r.kind == "agg" and "Range" in r.id for r in idx):
                 R.ok("descriptors are read at index i of a forward range", g.loc(b), cfg)
+            elif _forward_counter(g, t["args"][1]):
+                R.ok("descriptors are read at a counter that starts at 0 and is only ever incremented by one (`while i < n { .. i += 1 }`)", g.loc(b), cfg)
             else:
                 R.violate("%s:split-index" % g.path, "descriptors are not read at the plain forward loop index (%s)" % sorted(map(repr, idx)), g.path, g.loc(b), config=cfg)
         # second accepted form: a forward iterator over the slice view of the control-message data
@@ -648,6 +683,7 @@ def rule_frag_contig(ctx, cfg, F):
     fu_data = next(i for i in range(1, fu.argc + 1) if fu.local_ty(i) == "&[u8]") - 1
     n = 0
     E_locals = set()
+    E_sites = {}
     E1_locals = set()
     first_blocks = []
     # two-phase form: the in-loop first-fragment calls and the follow-up calls sit in different loops, the former ahead of the latter
@@ -681,6 +717,11 @@ def rule_frag_contig(ctx, cfg, F):
                     e = de[2][1][2][0]
                     if e[0] == "var":
                         E_locals.add(e[1])
+                        E_sites.setdefault(e[1], []).append(b)
+                    elif _range_end_local(f, t["args"][ff_data], "RangeTo") is not None:
+                        e1 = _range_end_local(f, t["args"][ff_data], "RangeTo")
+                        E_locals.add(e1)
+                        E_sites.setdefault(e1, []).append(b)
                     R.ok("in-loop first fragment sends data[..E]", f.loc(b), cfg)
                 elif de[0] == "call" and de[1].endswith("index") and de[2][0] == ("param", data_param) and de[2][1][0] == "agg" and de[2][1][1].endswith("Range::Range") and de[2][1][2][0] == ("var", P):
                     # one slice expression data[P..E] for both kinds of fragment: under the guard P == 0 (checked next) it is data[..E]
@@ -699,6 +740,8 @@ def rule_frag_contig(ctx, cfg, F):
                                 for lab in edge_label(f, s, tgt):
                                     if lab["kind"] == "cmp" and ((lab["op"] == "Eq" and lab["truth"]) or (lab["op"] == "Ne" and not lab["truth"])) and op_const(lab["b"]) == 0 and _is_var(f, lab["a"], P):
                                         guard = True
+                                    if lab["kind"] == "val" and lab.get("value") == 0 and not lab["place"].get("p") and _is_var(f, {"k": "cp", "pl": lab["place"]}, P):
+                                        guard = True     # `match position { 0 => .. }`
                 if guard:
                     R.ok("in-loop first fragment is guarded by P == 0", f.loc(b), cfg)
                 else:
@@ -714,12 +757,14 @@ def rule_frag_contig(ctx, cfg, F):
             okk = de[0] == "call" and de[1].endswith("index") and de[2][0] == ("param", data_param) and de[2][1][0] == "agg" and de[2][1][1].endswith("Range::Range")
             if okk:
                 s_, e_ = de[2][1][2]
-                e2 = _range_end_local(f, t["args"][fu_data], "Range") if two_phase else None
+                e2 = _range_end_local(f, t["args"][fu_data], "Range")
                 if s_ == ("var", P) and e_[0] == "var":
                     E_locals.add(e_[1])
+                    E_sites.setdefault(e_[1], []).append(b)
                     R.ok("follow-up transmitter sends data[P..E]", f.loc(b), cfg)
                 elif s_ == ("var", P) and e2 is not None:
                     E_locals.add(e2)
+                    E_sites.setdefault(e2, []).append(b)
                     R.ok("follow-up transmitter sends data[P..E] (E a per-iteration local)", f.loc(b), cfg)
                 else:
                     R.violate("%s:followup-slice-bounds" % f.path, "the follow-up slice is data[%s..%s], not data[P..E]" % (expr_str(s_), expr_str(e_)), f.path, f.loc(b), config=cfg)
@@ -729,7 +774,14 @@ def rule_frag_contig(ctx, cfg, F):
     defs = [d for d in f.defs().get(P, []) if not f.is_cleanup(d[0])]
     in_loop = [d for d in defs if _in_loop(f, d[0])]
     init = [d for d in defs if not _in_loop(f, d[0])]
-    if len(E_locals) != 1:
+    if len(E_locals) > 1 and not two_phase and len(in_loop) == 1 and in_loop[0][1] is not None and in_loop[0][2]["rv"]["r"] == "use" and _phi_of_ends(f, in_loop[0][2]["rv"]["a"][0], E_locals, E_sites):
+        # each arm computes an end of its own and hands it on (`let (end, result) = match P { 0 => (e0, ..), _ => (e1, ..) }; P = end`): the value P gets is, on every path,
+        # the end of the slice that was transmitted on that path
+        if len(init) == 1 and init[0][1] is not None and op_const(init[0][2]["rv"]["a"][0]) == 0:
+            R.ok("P starts at 0 and its only assignment in the loop is P = E, E the end of the slice transmitted on the path taken", f.loc(in_loop[0][0]), cfg)
+        else:
+            R.violate("%s:position-update" % f.path, "the position variable does not start at 0", f.path, f.loc((init or in_loop)[0][0]), config=cfg)
+    elif len(E_locals) != 1:
         R.violate("%s:end-variable" % f.path, "the two transmissions do not share one end variable E (%s)" % sorted(E_locals), f.path, config=cfg)
     else:
         E = next(iter(E_locals))
@@ -838,6 +890,26 @@ def _copy_root(f, operand):
                 continue
         break
     return l
+
+
+def _phi_of_ends(f, operand, E_locals, E_sites):
+    """the operand is (a copy of) a local X with several definitions, every one of them a copy of one of the end locals, made in a block that the transmission
+    with that end dominates -- and every end local is handed on by some definition"""
+    X = _copy_root(f, operand)
+    if X is None:
+        return False
+    ds = [d for d in f.defs().get(X, []) if not f.is_cleanup(d[0])]
+    if len(ds) < 2:
+        return False
+    seen = set()
+    for b, si, node in ds:
+        if si is None or node["rv"]["r"] != "use" or node["lhs"].get("p"):
+            return False
+        e = _copy_root(f, node["rv"]["a"][0])
+        if e not in E_locals or not any(f.dominates(tb, b) for tb in E_sites.get(e, [])):
+            return False
+        seen.add(e)
+    return seen == set(E_locals)
 
 
 def _range_end_local(f, slice_operand, kind):
@@ -1145,7 +1217,7 @@ def rule_shm_sentinel(ctx, cfg, F):
     def block_fact(b):
         for st in ser.stmts(b):
             if st["s"] == "assign" and st["rv"]["r"] == "use" and op_const(st["rv"]["a"][0]) == USIZE_MAX:
-                yield ("wrote", "MAX")
+                yield ("wrote", "MAX", st["lhs"]["l"] if not st["lhs"].get("p") else None, b)
         t = ser.term(b)
         if t["t"] == "call" and strip_generics(t.get("callee") or "") == "serde::Serialize::serialize":
             rs_ = trs.roots_of_operand(t["args"][0])
@@ -1163,7 +1235,15 @@ def rule_shm_sentinel(ctx, cfg, F):
     for facts, rb, path in path_summaries(ser, edge_fact, block_fact):
         npaths += 1
         opt = {x[1] for x in facts if x[0] == "opt"}
-        wrote = {x[1] for x in facts if x[0] == "wrote"}
+        # a default that is overwritten further down the path (`let mut index = usize::MAX; if let Some(..) { index = .. }`) was not what got written
+        plist = list(path)
+
+        def _overwritten(x):
+            if len(x) < 4 or x[2] is None or x[3] not in plist:
+                return False
+            later = plist[plist.index(x[3]) + 1:]
+            return any(d[0] in later for d in ser.defs().get(x[2], []) if not ser.is_cleanup(d[0]))
+        wrote = {x[1] for x in facts if x[0] == "wrote" and not _overwritten(x)}
         if not wrote and any(ser.term(pb)["t"] == "call" and "from_residual" in strip_generics(callee_name(ser.term(pb))) for pb in path):
             continue        # an error exit taken before anything was written (a precondition check with `?`)
         if opt == {"None"} and wrote != {"MAX"}:
@@ -1322,6 +1402,17 @@ def _clone_store_fresh(R, f, tr, sop, key, b, cfg):
             a = f.term(r.block)["args"][0]
             ar = tr.roots_of_operand(a)
             dupd = dupd and bool(ar) and all(x.kind == "call" and x.id in ("libc::fcntl", "libc::dup", "libc::dup3") for x in ar)
+    if not fresh and bool(sroots) and all(r.kind == "call" and r.id in ("libc::fcntl", "libc::dup", "libc::dup3") for r in sroots) and \
+            f.local_ty(op_local(sop) if op_local(sop) is not None else 0) == "i32":
+        # the store written as a literal around the duplicated descriptor (`BackingStore { fd: fcntl(..) }`): the construction finder hands on the descriptor itself
+        fresh = dupd = True
+    if not fresh and bool(sroots) and all(r.kind == "agg" and str(r.id).endswith("::BackingStore") for r in sroots):
+        # ... or the literal itself, moved into a constructor call
+        lits = [st for bb in f.live_blocks() for st in f.stmts(bb) if st["s"] == "assign" and st["rv"]["r"] == "agg" and (st["rv"]["kind"].get("adt") or "").endswith("::BackingStore")]
+        if len(lits) == 1 and not lits[0]["lhs"].get("p") and lits[0]["lhs"]["l"] == _root_local(f, tr, sop) and len(lits[0]["rv"]["a"]) == 1:
+            ar = tr.roots_of_operand(lits[0]["rv"]["a"][0])
+            if ar and all(x.kind == "call" and x.id in ("libc::fcntl", "libc::dup", "libc::dup3") for x in ar):
+                fresh = dupd = True
     if fresh and dupd:
         R.ok("Clone maps a fresh store built from a duplicated descriptor", f.loc(b), cfg)
     else:
@@ -1384,6 +1475,13 @@ def rule_shm_couple(ctx, cfg, F):
         rm_ = {(r.kind, r.id, r.block) for r in tr.roots_of_operand(mt["args"][0])}
         rs_ = {(r.kind, r.id, r.block) for r in tr.roots_of_operand(sop)}
         same_origin = len(rm_) == 1 and rm_ == rs_ and next(iter(rm_))[0] == "call"     # one creation site (call@block) feeds both
+        if store_of_map != store_moved and not same_origin and f.local_ty(op_local(sop) if op_local(sop) is not None else 0) == "i32":
+            # the store was written as a literal (`BackingStore { fd }`) and taken apart into its descriptor by the construction finder: it is the mapped store when
+            # it is the only store literal of the function, the mapper was called on it, and its descriptor is the one found in the region
+            lits = [st for bb in f.live_blocks() for st in f.stmts(bb) if st["s"] == "assign" and st["rv"]["r"] == "agg" and (st["rv"]["kind"].get("adt") or "").endswith("::BackingStore")]
+            if len(lits) == 1 and not lits[0]["lhs"].get("p") and lits[0]["lhs"]["l"] == store_of_map and len(lits[0]["rv"]["a"]) == 1 and \
+                    _root_local(f, tr, lits[0]["rv"]["a"][0]) == store_moved:
+                same_origin = True
         if store_of_map != store_moved and not same_origin:
             R.violate("%s:store-mismatch" % key, "the pointer was mapped from a different BackingStore than the one moved into the region", f.path, f.loc(b), config=cfg)
             continue
@@ -1493,6 +1591,9 @@ def fill_cover(f, L, norm=None):
                 cnt = norm(cnt)       # `mapping.length` of the mapping just made is the length it was asked for
             segs.append((repr(base), [_scaled(x) for x in terms], _scaled((cnt, esz))))
     if not segs:
+        lf = _loop_fill(f, ex, L, norm)
+        if lf is not None:
+            return lf
         return False, "no fill found"
     if len({s[0] for s in segs}) != 1:
         return False, "the fill segments are based on different pointers"
@@ -1511,6 +1612,84 @@ def fill_cover(f, L, norm=None):
             return False, "the second fill segment does not start where the first ends ((length / %d) * %d bytes) or does not have length %% %d bytes: starts at %s, counts %s" % (
                 W, W, W, " + ".join("%s*%d" % (expr_str(e), k) for e, k in second[1]), "%s*%d" % (expr_str(r), one))
     return False, "fill segments do not add up to [0, length): %s" % [(" + ".join("%s*%d" % (expr_str(e), k) for e, k in s[1]) or "0", "%s*%d" % (expr_str(s[2][0]), s[2][1])) for s in segs]
+
+
+def _loop_fill(f, ex, L, norm):
+    """the fill written as a counting loop: `while i < L { p.add(i).write(v); i += 1 }` -- one store of one byte per iteration at base + i, i a counter that starts
+    at 0 and only ever goes up by one, the loop entered exactly while i < L, and no way round the loop that skips the store.  None when there is no such loop."""
+    writes = []
+    for b, t in f.calls():
+        nm = strip_generics(callee_name(t))
+        if nm in ("std::ptr::mut_ptr::write", "std::ptr::write", "std::ptr::mut_ptr::write_volatile", "std::ptr::write_volatile") and t["args"]:
+            writes.append((b, t["args"][0]))
+    for b in f.live_blocks():
+        if f.is_cleanup(b):
+            continue
+        for st in f.stmts(b):
+            if st["s"] == "assign" and st["lhs"].get("p") == ["*"] and f.local_ty(st["lhs"]["l"]).startswith("*mut "):
+                writes.append((b, {"k": "cp", "pl": {"l": st["lhs"]["l"]}}))
+    if len(writes) != 1:
+        return None
+    wb, pa = writes[0]
+    po = _ptr_offset(f, pa, ex)
+    esz = _pointee_size(f.local_ty(op_local(pa))) if op_local(pa) is not None else None
+    if po is None or esz != 1:
+        return None
+    base, terms = po
+    # the offset is one term: the counter, scaled by one byte
+    ptr_l = op_local(pa)
+    ds = [d for d in f.defs().get(ptr_l, []) if not f.is_cleanup(d[0])] if ptr_l is not None else []
+    ctr = None
+    for _ in range(6):
+        if len(ds) != 1:
+            break
+        db, si, node = ds[0]
+        if si is None and strip_generics(callee_name(node)) in ("std::ptr::mut_ptr::add", "std::ptr::mut_ptr::offset", "std::ptr::const_ptr::add") and len(node["args"]) == 2:
+            ctr = node["args"][1]
+            # the pointer the offset is applied to must itself carry no offset
+            inner = _ptr_offset(f, node["args"][0], ex)
+            if inner is None or inner[1]:
+                return None
+            break
+        if si is not None and node["rv"]["r"] in ("use", "cast") and op_local(node["rv"]["a"][0]) is not None:
+            ds = [d for d in f.defs().get(op_local(node["rv"]["a"][0]), []) if not f.is_cleanup(d[0])]
+            continue
+        break
+    if ctr is None or not _forward_counter(f, ctr):
+        return None
+    C = _copy_root(f, ctr)
+    hdrs = [h for h in f.loop_headers() if wb in f.natural_loop(h)]
+    if len(hdrs) != 1:
+        return None
+    loop = f.natural_loop(hdrs[0])
+    # the loop body is entered on the edge `C < L` (of a test inside the loop that dominates the store), and left on the other
+    guarded = False
+    for s_ in sorted(loop):
+        if f.term(s_)["t"] != "switch" or not f.dominates(s_, wb):
+            continue
+        for tgt in f.succ(s_):
+            for lab in edge_label(f, s_, tgt):
+                if lab["kind"] != "cmp":
+                    continue
+                lt = (lab["op"] == "Lt" and lab["truth"]) or (lab["op"] == "Ge" and not lab["truth"])
+                gt = (lab["op"] == "Gt" and lab["truth"]) or (lab["op"] == "Le" and not lab["truth"])
+                a_, b_ = (lab["a"], lab["b"]) if lt else ((lab["b"], lab["a"]) if gt else (None, None))
+                if a_ is None or _copy_root(f, a_) != C:
+                    continue
+                bound = expr_strip_blocks(ex.of_operand(b_))
+                if norm is not None:
+                    bound = norm(bound)
+                others = [x for x in f.succ(s_) if x != tgt]
+                if repr(bound) == repr(L) and (tgt == wb or f.dominates(tgt, wb)) and all(x not in loop for x in others):
+                    guarded = True
+    if not guarded:
+        return False, "the counting loop of the fill does not run exactly while counter < length"
+    # every way back to the loop header has passed the store (and the counter only changes by the increment, which _forward_counter established)
+    incs = [d[0] for d in f.defs().get(C, []) if not f.is_cleanup(d[0]) and d[0] in loop]
+    latches = [x for x in loop if hdrs[0] in f.succ(x)]
+    if not latches or not all(f.dominates(wb, x) for x in latches) or len(incs) != 1 or not f.dominates(wb, incs[0]) or not all(f.dominates(incs[0], x) for x in latches):
+        return False, "an iteration of the fill loop can skip the store or the increment"
+    return True, "counting loop: one byte stored at base + i for i in 0..length"
 
 
 def _norm_mapped_len(F, e):
